@@ -27,7 +27,7 @@ OUTSIDE = ["more than 2 (quick) / 4 (thorough) ACs, more than one (quick) / two 
            "a final answer arriving at exactly the 5 s limit (tie)"]
 ASSUMPTIONS = ["foreign-addressed extra frames are another client's command or request (addressed to the console, from 0xB1), not a forged answer of the kind currently awaited"]
 
-EXTRA_KINDS = ("unsolicited_status", "stale_duplicate", "unknown_type", "foreign_command", "foreign_request")
+EXTRA_KINDS = ("unsolicited_status", "stale_duplicate", "unknown_type", "foreign_command", "foreign_request", "partial_status")
 
 
 def bounds(tier):
@@ -94,11 +94,27 @@ def _check_model(ctx, rig, inst, detail):
     names_ok = sym_and(*[z.name == nm(inst.zones[z.zone_id]) for a in at.air_conditioners for z in a.zones])
     ac_names_ok = all(a.name == [x for x in inst.acs if x["number"] == a.ac_id][0]["name"] for a in at.air_conditioners)
     ctx.check(got == exp and names_ok and ac_names_ok, "success.model", detail=dict(detail, got=got, expected=exp))
+    # every AC shows what the console reported about it during the handshake (power state and set-point of its status record)
+    T = r4 if inst.gen == 4 else r5
+    for a in at.air_conditioners:
+        rec = inst.ac_status.get(a.ac_id)
+        if rec is None or not all(isinstance(b, int) for b in rec):
+            continue
+        e = T.ac_status_record(rec)
+        want_power = {0: "OFF", 1: "ON"}.get(e["power_code"]) if inst.gen == 4 else T.AC_POWER_STATE.get(e["power_code"])
+        want_sp = e["set_point"] if inst.gen == 4 else (e["set_point_raw"] + 100) / 10.0
+        ok = a.power_state.name == want_power and a.target_temperature == want_sp
+        ctx.check(ok, "success.model", detail=dict(detail, ac=a.ac_id, power=a.power_state.name, target=str(a.target_temperature), reported=(want_power, want_sp)))
 
 
 def _extra_frame(g, kind, inst, console, step):
     if kind == "unsolicited_status":
         return console.ac_status_frame(pid=0x55)
+    if kind == "partial_status":
+        # an unsolicited report about the last AC only (the console sends one whenever something changes), with the values the
+        # console also gives in its full answer
+        last = max(console.inst.ac_status)
+        return console.ac_status_frame(pid=0x5B, only=[last])
     if kind == "unknown_type":
         return framing.frame(g, 0xB0, 0x80, 0x56, 0x77, [1, 2, 3, 4, 5])
     if kind == "foreign_command":
